@@ -9,14 +9,16 @@ namespace YouVerif.C02
 
 /-- a predicate on the gate preserved by the four things that can happen to it -/
 structure Closed (P : Gate → Prop) : Prop where
-  cast : ∀ g k r i h, P g → P (g.cast k r i h).1
+  cast : ∀ g k r i h prio w, P g → P (g.cast k r i h prio w).1
   ctx : ∀ g r i, P g → P { g with c := g.c.updateContext r i }
+  post : ∀ g o, o.isSend = false → P g → P (g.post o)
   frame : ∀ g a n, P g → P { g with armed := a, puts := n }
-  restart : ∀ g, P g → P { p := g.p, c := restore g.p, sent := g.sent }
+  restart : ∀ g, P g → P { p := g.p, c := restore g.p, sent := g.sent, out := g.out }
 
 variable {P : Gate → Prop}
 
-@[simp] theorem post_g (s : St) (o : Out) : (s.post o).g = s.g := by unfold St.post; split <;> rfl
+theorem post_P (hP : Closed P) (s : St) (o : Out) (ho : o.isSend = false) (hs : P s.g) : P (s.post o).g := by
+  unfold St.post; exact hP.post _ _ ho hs
 
 theorem voteCore_P (hP : Closed P) (s : St) (k : Kind) (h prio : Nat) (hs : P s.g) : P (voteCore s k h prio).1.g := by
   unfold voteCore
@@ -28,20 +30,25 @@ theorem voteCore_P (hP : Closed P) (s : St) (k : Kind) (h prio : Nat) (hs : P s.
       split_ifs
       all_goals first
         | exact hs
-        | (simp only [post_g]; exact hP.cast _ _ _ _ _ hs)
+        | exact hP.cast _ _ _ _ _ _ _ hs
 
 @[simp] theorem judgePre_g (s : St) (k : Kind) (count q h vt : Nat) : (judgePre s k count q h vt).1.g = s.g := by
   unfold judgePre; repeat' split
   all_goals rfl
 
-@[simp] theorem judgeNext_g (s : St) (count q h prio vt : Nat) : (judgeNext s count q h prio vt).g = s.g := by
-  unfold judgeNext; simp only; repeat' split
-  all_goals simp
+theorem judgeNext_P (hP : Closed P) (s : St) (count q h prio vt : Nat) (hs : P s.g) :
+    P (judgeNext s count q h prio vt).g := by
+  unfold judgeNext; simp only
+  have hs' : P (judgePre s .next count q h vt).1.g := by simpa using hs
+  split_ifs
+  all_goals first
+    | exact hs'
+    | exact post_P hP _ _ rfl hs'
 
 theorem voteNext_P (hP : Closed P) (s : St) (h prio : Nat) (hs : P s.g) : P (voteNext s h prio).1.g := by
   unfold voteNext; simp only; split
   · exact voteCore_P hP s .next h prio hs
-  · simp only [judgeNext_g]; exact voteCore_P hP s .next h prio hs
+  · exact judgeNext_P hP _ _ _ _ _ _ (voteCore_P hP s .next h prio hs)
 
 theorem setMarkedBlock_P (hP : Closed P) (s : St) (h prio : Nat) (hs : P s.g) : P (setMarkedBlock s h prio).g := by
   unfold setMarkedBlock; simp only; repeat' split
@@ -49,10 +56,10 @@ theorem setMarkedBlock_P (hP : Closed P) (s : St) (h prio : Nat) (hs : P s.g) : 
     | exact hs
     | exact voteNext_P hP s h prio hs
 
-@[simp] theorem commit_g (s : St) (h : Nat) : (commit s h).g = s.g := by
+theorem commit_P (hP : Closed P) (s : St) (h : Nat) (hs : P s.g) : P (commit s h).g := by
   unfold commit; split
-  · rfl
-  · simp
+  · exact hs
+  · exact post_P hP _ _ rfl hs
 
 theorem judgeCert_P (hP : Closed P) (s : St) (count q h prio vt : Nat) (hs : P s.g) :
     P (judgeCert s count q h prio vt).g := by
@@ -61,7 +68,7 @@ theorem judgeCert_P (hP : Closed P) (s : St) (count q h prio vt : Nat) (hs : P s
   repeat' split
   all_goals first
     | exact hs'
-    | exact setMarkedBlock_P hP _ _ _ (by simpa using hs')
+    | exact setMarkedBlock_P hP _ _ _ (commit_P hP _ _ hs')
 
 theorem voteCert_P (hP : Closed P) (s : St) (h prio : Nat) (hs : P s.g) : P (voteCert s h prio).1.g := by
   unfold voteCert; simp only; split
@@ -75,7 +82,7 @@ theorem judgePrecommit_P (hP : Closed P) (s : St) (count q h prio vt : Nat) (hs 
   repeat' split
   all_goals first
     | exact hs'
-    | exact setMarkedBlock_P hP _ _ _ (by simpa using hs')
+    | exact setMarkedBlock_P hP _ _ _ (commit_P hP _ _ hs')
     | exact voteCert_P hP _ _ _ hs'
 
 theorem votePrecommit_P (hP : Closed P) (s : St) (h prio : Nat) (hs : P s.g) : P (votePrecommit s h prio).1.g := by
@@ -107,7 +114,7 @@ theorem judge_P (hP : Closed P) (s : St) (k : Kind) (count q h prio vt : Nat) (h
   cases k
   · exact judgePrevote_P hP _ _ _ _ _ _ hs
   · exact judgePrecommit_P hP _ _ _ _ _ _ hs
-  · simpa using hs
+  · exact judgeNext_P hP _ _ _ _ _ _ hs
   · exact judgeCert_P hP _ _ _ _ _ _ hs
 
 /-- the latch-resetting first half of `Voter.updateContext` -/
@@ -126,9 +133,11 @@ def ctxReset (s : St) (r i : Nat) : St :=
         nextMarked := none, nextVoted := none, voteOver := [] } }
   else s
 
-@[simp] theorem ctxReset_g (s : St) (r i : Nat) : (ctxReset s r i).g = s.g := by
+theorem ctxReset_P (hP : Closed P) (s : St) (r i : Nat) (hs : P s.g) : P (ctxReset s r i).g := by
   unfold ctxReset; repeat' split
-  all_goals simp
+  all_goals first
+    | exact hs
+    | exact post_P hP _ _ rfl hs
 
 theorem updateContext_eq (s : St) (r i step : Nat) (cert : Bool) :
     updateContext s r i step cert =
@@ -159,7 +168,7 @@ theorem updateContext_P (hP : Closed P) (s : St) (r i step : Nat) (cert : Bool) 
   rw [updateContext_eq]
   simp only
   have hg : P { (ctxReset s r i).g with c := (ctxReset s r i).g.c.updateContext r i } :=
-    hP.ctx _ _ _ (by simpa using hs)
+    hP.ctx _ _ _ (ctxReset_P hP _ _ _ hs)
   repeat' split
   all_goals first
     | exact hg
@@ -172,7 +181,7 @@ theorem countVote_P (hP : Closed P) (s : St) (m : VoteMsg) (w : Wrapper) (k : Ki
   split_ifs
   all_goals first
     | exact hs
-    | (simp only [post_g]; exact hs)
+    | exact post_P hP _ _ rfl hs
     | exact judge_P hP _ _ _ _ _ _ _ hs
 
 theorem processVoteMsg_P (hP : Closed P) (s : St) (m : VoteMsg) (hs : P s.g) : P (processVoteMsg s m).1.g := by
@@ -197,33 +206,50 @@ theorem finish_P (hP : Closed P) (s : St) (hs : P s.g) : P (finish s).1.g := by
   · exact restart_P hP s hs
   · exact hP.frame _ _ _ hs
 
-theorem step_P (hP : Closed P) (s : St) (e : Ev) (hs : P s.g) : P (step s e).1.g := by
+/-- the start of a call: the per-call output and Put counter are reset -/
+def Gate.begin (g : Gate) : Gate := { g with puts := 0, out := [] }
+
+theorem call_P (hP : Closed P) (s : St) (e : Ev) (hs : P s.g.begin) :
+    P (step s e).1.g ∨ ∃ n after, e = .arm n after ∨ e = .crash ∨ ∃ en, e = .env en := by
   cases e with
   | ctx r i st cert =>
-    unfold step; simp only
-    exact finish_P hP _ (updateContext_P hP _ _ _ _ _ (hP.frame s.g s.g.armed 0 hs))
+    left; unfold step; simp only
+    exact finish_P hP _ (updateContext_P hP _ _ _ _ _ hs)
   | vote m =>
-    unfold step; simp only
-    have h1 : P (processVoteMsg { s with out := [], g := { s.g with puts := 0 } } m).1.g :=
-      processVoteMsg_P hP _ m (hP.frame s.g s.g.armed 0 hs)
+    left; unfold step; simp only
+    have h1 : P (processVoteMsg { s with g := { s.g with puts := 0, out := [] } } m).1.g :=
+      processVoteMsg_P hP _ m hs
     have h2 := finish_P hP _ h1
     split_ifs
     · exact h2
     · exact restart_P hP _ h2
     · exact h2
-  | crash => unfold step; exact restart_P hP _ hs
-  | arm n after => unfold step; exact hP.frame s.g (some (n, after)) s.g.puts hs
-  | env e => unfold step; exact hs
+  | crash => right; exact ⟨0, false, Or.inr (Or.inl rfl)⟩
+  | arm n after => right; exact ⟨n, after, Or.inl rfl⟩
+  | env en => right; exact ⟨0, false, Or.inr (Or.inr ⟨en, rfl⟩)⟩
 
-theorem run_P (hP : Closed P) (evs : List Ev) : ∀ s : St, P s.g → P (run s evs).g := by
+/-- for predicates that do not look at the per-call output -/
+theorem step_P (hP : Closed P) (hout : ∀ g o, P g → P { g with out := o }) (s : St) (e : Ev) (hs : P s.g) :
+    P (step s e).1.g := by
+  have hb : P s.g.begin := hout _ [] (hP.frame s.g s.g.armed 0 hs)
+  cases e with
+  | ctx r i st cert => rcases call_P hP s (.ctx r i st cert) hb with h | ⟨_, _, h | h | ⟨_, h⟩⟩ <;> first | exact h | cases h
+  | vote m => rcases call_P hP s (.vote m) hb with h | ⟨_, _, h | h | ⟨_, h⟩⟩ <;> first | exact h | cases h
+  | crash => unfold step; exact restart_P hP _ (hout _ [] hs)
+  | arm n after => unfold step; exact hout _ [] (hP.frame s.g (some (n, after)) s.g.puts hs)
+  | env e => unfold step; exact hout _ [] hs
+
+theorem run_P (hP : Closed P) (hout : ∀ g o, P g → P { g with out := o }) (evs : List Ev) :
+    ∀ s : St, P s.g → P (run s evs).g := by
   induction evs with
   | nil => intro s hs; exact hs
-  | cons e evs ih => intro s hs; unfold run; simp only [List.foldl_cons]; exact ih _ (step_P hP s e hs)
+  | cons e evs ih => intro s hs; unfold run; simp only [List.foldl_cons]; exact ih _ (step_P hP hout s e hs)
 
 /-- the gate invariant is closed -/
 theorem Inv.closed : Closed Inv where
-  cast := fun g k r i h hg => hg.cast k r i h
+  cast := fun g k r i h prio w hg => hg.cast k r i h prio w
   ctx := fun g r i hg => ⟨hg.1, fun hd => (hg.2 hd).updateContext r i⟩
+  post := fun g o _ hg => by unfold Gate.post; split <;> exact hg
   frame := fun g a n hg => ⟨hg.1, hg.2⟩
   restart := fun g hg => ⟨hg.1, fun _ => live_restore g.p⟩
 
@@ -237,6 +263,56 @@ theorem inv_init : Inv init.g := by
   · unfold Live; simp [init, Persist.empty, noMarks]
 
 /-- the invariant holds after every history -/
-theorem inv_run (evs : List Ev) : Inv (run init evs).g := run_P Inv.closed evs init inv_init
+theorem inv_run (evs : List Ev) : Inv (run init evs).g := run_P Inv.closed (fun _ _ hg => hg) evs init inv_init
+
+/-! ### the ghost list `sent` is exactly the SendMessageEvents of the calls -/
+
+def Signed.key (x : Signed) : Kind × Nat × Nat × Nat := (x.kind, x.round, x.index, x.hash)
+
+def sendKey : Out → Option (Kind × Nat × Nat × Nat)
+  | .send k r i h _ _ => some (k, r, i, h)
+  | _ => none
+
+/-- during a call: the votes recorded as having left the node are those recorded before the call plus the
+    SendMessageEvents the call has posted so far -/
+def Tracks (base : List (Kind × Nat × Nat × Nat)) (g : Gate) : Prop :=
+  g.sent.map Signed.key = base ++ g.out.filterMap sendKey
+
+theorem Tracks.closed (base : List (Kind × Nat × Nat × Nat)) : Closed (Tracks base) where
+  cast := by
+    intro g k r i h prio w hg
+    unfold Tracks at *
+    unfold Gate.cast
+    have hp := put_cases g k (g.c.voteSlot k r i) ⟨r, i⟩
+    obtain ⟨hsent, _, _⟩ := hp
+    have hout := put_out g k (g.c.voteSlot k r i) ⟨r, i⟩
+    by_cases hv : g.c.alreadyVoted k r i = true
+    · simp only [hv, if_true]; exact hg
+    · simp only [hv, if_false, Bool.false_eq_true]
+      by_cases hd : (g.put k (g.c.voteSlot k r i) ⟨r, i⟩).dead = true
+      · simp only [hd, if_true, hsent, hout]; exact hg
+      · simp only [hd, if_false, Bool.false_eq_true, hsent, hout, List.map_append, List.filterMap_append, hg]
+        simp [Signed.key, sendKey, List.append_assoc]
+  ctx := fun g r i hg => hg
+  post := by
+    intro g o ho hg
+    unfold Tracks at *
+    unfold Gate.post
+    split
+    · exact hg
+    · simp only [List.filterMap_append, hg]
+      cases o <;> simp_all [Out.isSend, sendKey]
+  frame := fun g a n hg => hg
+  restart := fun g hg => hg
+
+/-- per call: what the call adds to `sent` is exactly the list of SendMessageEvents it posted, in order -/
+theorem sent_tracks_out (s : St) (e : Ev) :
+    (step s e).1.g.sent.map Signed.key = s.g.sent.map Signed.key ++ (step s e).1.g.out.filterMap sendKey := by
+  have hb : Tracks (s.g.sent.map Signed.key) s.g.begin := by unfold Tracks Gate.begin; simp
+  rcases call_P (Tracks.closed _) s e hb with h | ⟨n, after, h | h | ⟨en, h⟩⟩
+  · exact h
+  · subst h; unfold step; simp
+  · subst h; unfold step restart; simp
+  · subst h; unfold step; simp
 
 end YouVerif.C02
